@@ -199,3 +199,9 @@ add('HDLC',
     Rule('X-HDLC', '$d:i.to_vec()', 'slice_to_vec($d)'),
     Rule('X-ITER', 'for $s:i in $w:i.iter().copied() $body:b',
          '{ let mut __k: usize = 0; while __k < $w.len() { let $s = *$w.get_ref(__k); __k += 1; $body } }'))
+
+# X-SER (unit fsink): the serialisation closure and the Sample trait statics
+add('SER',
+    Rule('X-SER', '$w:i.iter().for_each(|s: &T| { $v:i.extend(&s.serialize()); });', 'serialize_into(&$w, &mut $v);', stmt_start=True),
+    Rule('X-SER', 'T::size()', 'sample_size::<T>()'),
+    Rule('X-SER', '$s:i.serialize()', 'serialize_one(&$s)'))
